@@ -32,3 +32,18 @@ package metrics
 //@ ensures[len] len(result) == len(sw.samples) && fresh(result)
 //@ ensures[vals] forall(j, 0, len(result), result[j] == sw.samples[j].Value)
 //@ loop 0 invariant 0 <= idx && idx <= len(sw.samples) && len(samples) == len(sw.samples) && fresh(samples) && forall(j, 0, idx, samples[j] == sw.samples[j].Value)
+
+//@ func newSlidingWindow
+//@ trusted
+//@ ensures err == nil ==> result0 != nil && fresh(result0)
+
+// AddSample (C19): the window of a key is looked up and, if missing, created AND registered inside one
+// critical section of wlock, and the sample is added before the lock is released — so concurrent first
+// samples of a key all land in the same window.
+//@ func Stats.AddSample
+//@ flag skip frame
+//@ requires stats.windows != nil && (haskey(stats.windows, key) ==> stats.windows[key] != nil)
+//@ ensures[unlocked] held(stats.wlock) == 0
+//@ before newSlidingWindow#0 assert[create-under-lock] held(stats.wlock) == 2
+//@ before slidingWindow.Add#0 assert[add-under-lock] held(stats.wlock) == 2 && win != nil
+//@ before slidingWindow.Add#0 assert[registered] haskey(stats.windows, key) && stats.windows[key] == win
